@@ -414,9 +414,9 @@ func (r *c20Runner) unpackObserved(mode, pre string, payload []byte) string {
 	var runErr error
 	switch mode {
 	case "encdirect":
-		runErr = retriever.UnpackEncryptedCollectionArchive(bytes.NewReader(payload), dest, d.priv)
+		runErr = retriever.UnpackEncryptedCollectionArchive(c20Reader(payload), dest, d.priv)
 	case "staged", "stagedforce":
-		runErr = retriever.Unpack(retriever.UnpackOptions{ArchiveReader: bytes.NewReader(payload), ArchiveIdentity: d.priv, OutputDir: dest, Force: mode == "stagedforce"})
+		runErr = retriever.Unpack(retriever.UnpackOptions{ArchiveReader: c20Reader(payload), ArchiveIdentity: d.priv, OutputDir: dest, Force: mode == "stagedforce"})
 	default:
 		return "bad-op"
 	}
